@@ -3,9 +3,14 @@
 (* handler holds the queue event), every request the driver issues (kind, arguments, the context it *)
 (* is issued from: "top" = loop settled, otherwise the name of the event whose handler issues it),  *)
 (* and with every line game.balls_in_play, machine.game is None, len(player_list), the current       *)
-(* player's number, ball and extra_balls.  The pieces of coroutine between events (Adv, PComplete)   *)
-(* are inferred.  A request from top level and a `rest` line require that the model cannot move on   *)
-(* its own either (that is how a ball that does not end / a game that hangs is noticed).             *)
+(* player's number, ball and extra_balls.  The pieces of coroutine between events (Adv) and the      *)
+(* callbacks of the player-add pipeline (PCreate, PComplete) are inferred.  A request from top      *)
+(* level and a `rest` line require that the model cannot move on its own either (that is how a ball  *)
+(* that does not end / a game that hangs is noticed).                                                *)
+(* Lines marked `stale` (player_adding / player_added of a Player object that is not in the current   *)
+(* game's player_list) are skipped.  The driver validates a crashed execution up to the crash and     *)
+(* reports the crash itself; a rejected execution is re-validated with Deviations # {} to name the     *)
+(* code-as-is deviation(s) that explain it.                                                            *)
 EXTENDS Game, TraceIO
 VARIABLES tid, l
 tvars == <<vars, tid, l>>
